@@ -21,6 +21,7 @@ package c02
 
 import (
 	"bytes"
+	"encoding/json"
 	"errors"
 	"fmt"
 	"io"
@@ -694,16 +695,78 @@ func sweeps(thorough bool, rng *rand.Rand) (rs []run, hs []*honest) {
 }
 
 // ---------------------------------------------------------------------------
+// position binding of a single segment over the whole 32-bit counter range (v1.VerifSegmentFns)
+
+type posCase struct {
+	Cipher string `json:"cipher"`
+	Sealer string `json:"sealer"` // real: sealed by the real segment encryptor; ref: by the README implementation
+	N      uint32 `json:"N"`
+	Last   bool   `json:"last"`
+}
+
+// runPosition seals one chunk for (N, last) and hands it to the REAL segment decryptor at every candidate position:
+// the boundary counters, N mod 2^24, N mod 2^16, N +- 2^24, N +- 2^16, N +- 1, each with both last flags.
+func runPosition(b *tv.Batch, cs posCase) {
+	b.Start(tv.M{"class": "segment-position", "len": 0, "mutated": true, "headerOnly": false, "cipher": cs.Cipher, "sealer": cs.Sealer, "N": int64(cs.N), "last": cs.Last})
+	fk, np := pseudo(32, int64(cs.N)+15), pseudo(7, int64(cs.N)+16)
+	chunk := pseudo(40, int64(cs.N)+17)
+	enc, dec, err := v1.VerifSegmentFns(fk, np, v1.Cipher(cs.Cipher))
+	if err != nil {
+		panic(err)
+	}
+	var sealed []byte
+	if cs.Sealer == "real" {
+		var out bytes.Buffer
+		buf := make([]byte, len(chunk), len(chunk)+64)
+		copy(buf, chunk)
+		if err := enc(&out, buf, cs.N, cs.Last); err != nil {
+			panic(err)
+		}
+		sealed = out.Bytes()
+	} else {
+		sealed, _ = encref.SealSegment(encref.CipherIDs[cs.Cipher], fk, np, cs.N, cs.Last, chunk)
+	}
+	seen := map[uint32]bool{}
+	var cands []uint32
+	for _, n := range append(append([]uint32{}, encref.BoundaryCounters...), cs.N%(1<<24), cs.N%(1<<16), cs.N+1<<24, cs.N-1<<24, cs.N+1<<16, cs.N-1<<16, cs.N+1, cs.N-1, cs.N^1, cs.N>>8, cs.N<<8) {
+		if !seen[n] {
+			seen[n] = true
+			cands = append(cands, n)
+		}
+	}
+	for _, n2 := range cands {
+		for _, l2 := range []bool{false, true} {
+			var w bytes.Buffer
+			err := dec(&w, append(make([]byte, 0, len(sealed)+16), sealed...), n2, l2)
+			b.Ev("openat", tv.M{"shi": int(cs.N >> 16), "slo": int(cs.N & 0xffff), "slast": cs.Last, "hi": int(n2 >> 16), "lo": int(n2 & 0xffff), "last": l2,
+				"ok": err == nil && bytes.Equal(w.Bytes(), chunk), "wrote": w.Len(), "n2": int64(n2)})
+		}
+	}
+	b.Ev("end", tv.M{"term": "err", "released": 0, "equal": true})
+}
+
+func flag(l bool) string {
+	if l {
+		return "L"
+	}
+	return ""
+}
+
+// ---------------------------------------------------------------------------
 
 func mcRun(e *ev.Evidence, cfg string, timeout time.Duration, wantViolation bool) tlc.Result {
-	mc := encref.RunTLC(tlc.Opts{Dir: specDir, Module: "EncTamper", Config: cfg, Workers: 16, Timeout: timeout, Args: []string{"-noGenerateSpecTE"}, HeapMB: 8192})
-	fmt.Printf("MC EncTamper/%s: ok=%v violation=%v generated=%d distinct=%d depth=%d wall=%s %s\n", cfg, mc.OK, mc.Violation, mc.Generated, mc.Distinct, mc.Depth, mc.Wall.Round(time.Millisecond), mc.What)
+	module := "EncTamper"
+	if strings.HasPrefix(cfg, "MC_position") {
+		module = "EncPosition"
+	}
+	mc := encref.RunTLC(tlc.Opts{Dir: specDir, Module: module, Config: cfg, Workers: 16, Timeout: timeout, Args: []string{"-noGenerateSpecTE"}, HeapMB: 8192})
+	fmt.Printf("MC "+module+"/%s: ok=%v violation=%v generated=%d distinct=%d depth=%d wall=%s %s\n", cfg, mc.OK, mc.Violation, mc.Generated, mc.Distinct, mc.Depth, mc.Wall.Round(time.Millisecond), mc.What)
 	if wantViolation {
 		if !mc.Violation {
-			e.Inconclusive("configuration " + cfg + " of EncTamper was not rejected by TLC (vacuous model check?): " + mc.What)
+			e.Inconclusive("configuration " + cfg + " of " + module + " was not rejected by TLC (vacuous model check?): " + mc.What)
 		}
 	} else if !mc.OK {
-		e.Inconclusive("model check of EncTamper (" + cfg + ") did not pass: " + mc.What + "\n" + mc.Tail(3000))
+		e.Inconclusive("model check of " + module + " (" + cfg + ") did not pass: " + mc.What + "\n" + mc.Tail(3000))
 	}
 	return mc
 }
@@ -749,6 +812,10 @@ func TestCheck(t *testing.T) {
 		mc := mcRun(e, ev.Pick("MC_tamper_small.cfg", "MC_tamper_big.cfg"), ev.Pick(5*time.Minute, 40*time.Minute), false)
 		mcRun(e, "MC_tamper_strict.cfg", 3*time.Minute, true)
 		for _, d := range []string{"MC_tamper_defect_nolastbind.cfg", "MC_tamper_defect_release-first.cfg", "MC_tamper_defect_swallow.cfg"} {
+			mcRun(e, d, 3*time.Minute, true)
+		}
+		mcRun(e, "MC_position.cfg", 3*time.Minute, false)
+		for _, d := range []string{"MC_position_defect_wrap24.cfg", "MC_position_defect_wrap16.cfg", "MC_position_defect_last-overlaps.cfg"} {
 			mcRun(e, d, 3*time.Minute, true)
 		}
 		mcDone <- mc
@@ -874,6 +941,49 @@ func TestCheck(t *testing.T) {
 		}
 	}
 
+	// 4b. position binding of single segments over the 32-bit counter range
+	pb := &tv.Batch{}
+	var pcases []posCase
+	nOpen := 0
+	for _, cph := range []string{cipherAES, cipherCC} {
+		for _, sealer := range []string{"real", "ref"} {
+			for _, n := range encref.BoundaryCounters {
+				for _, last := range []bool{false, true} {
+					pcases = append(pcases, posCase{Cipher: cph, Sealer: sealer, N: n, Last: last})
+					runPosition(pb, pcases[len(pcases)-1])
+					e.Nontrivial(fmt.Sprintf("position %v", pcases[len(pcases)-1]))
+				}
+			}
+		}
+	}
+	nOpen = pb.Lines() - 2*pb.Len()
+	prej, pres := encref.Validate(tlc.Opts{Dir: specDir, Module: "TraceEncTamper", Config: "TraceEncTamper.cfg", Workers: 4, Timeout: 5 * time.Minute}, pb)
+	fmt.Printf("TLC position-binding trace validation: traces=%d openat=%d ok=%v rejects=%d wall=%s %s\n", pb.Len(), nOpen, pres.OK, len(prej), pres.Wall.Round(time.Millisecond), pres.What)
+	if !pres.OK {
+		e.Inconclusive("position-binding trace validation did not run: " + pres.What)
+	} else {
+		total += pb.Len()
+		e.Set("traces_validated_against_impl", int64(total))
+		e.Set("evaluations", int64(len(runs)+nOpen))
+		e.Set("position_binding", tv.M{"sealed_segments": len(pcases), "open_attempts": nOpen})
+	}
+	for _, rj := range prej {
+		cs := pcases[rj.Trace]
+		var evt struct {
+			N2   int64 `json:"n2"`
+			Last bool  `json:"last"`
+		}
+		_ = json.Unmarshal([]byte(pb.TraceStrings(rj.Trace)[rj.At]), &evt)
+		key := fmt.Sprintf("segment-position-not-bound:%d%s->%d%s", cs.N, flag(cs.Last), evt.N2, flag(evt.Last))
+		if strings.Contains(rj.Why, "own position") {
+			key = fmt.Sprintf("segment-rejected-at-own-position:%d%s", cs.N, flag(cs.Last))
+		} else if strings.Contains(rj.Why, "released bytes") {
+			key = fmt.Sprintf("rejected-segment-released-bytes:%d%s->%d%s", cs.N, flag(cs.Last), evt.N2, flag(evt.Last))
+		}
+		e.Violation(key, fmt.Sprintf("%s, segment sealed (%s) for number %d last=%v, presented at number %d last=%v: %s", cs.Cipher, cs.Sealer, cs.N, cs.Last, evt.N2, evt.Last, rj.Why),
+			tv.M{"case": cs, "event": pb.TraceStrings(rj.Trace)[rj.At], "at": rj.At})
+	}
+
 	// 5. binding self-test
 	selfTest(e)
 }
@@ -904,14 +1014,29 @@ func selfTest(e *ev.Evidence) {
 	b.AppendTrace(mutB)
 	b.AppendTrace(sf.Trace(0))
 	b.AppendTrace(mutC)
+	// position binding: a real run, and the same with one foreign-position attempt rewritten to "accepted"
+	pg := &tv.Batch{}
+	runPosition(pg, posCase{Cipher: cipherAES, Sealer: "real", N: 1 << 24, Last: false})
+	var mutP [][]byte
+	done := false
+	for _, l := range pg.Trace(0) {
+		if !done && bytes.Contains(l, []byte(`"ok":false`)) {
+			l = bytes.Replace(l, []byte(`"ok":false`), []byte(`"ok":true`), 1)
+			done = true
+		}
+		mutP = append(mutP, l)
+	}
+	b.AppendTrace(pg.Trace(0))
+	b.AppendTrace(mutP)
 	rej, res := encref.Validate(tlc.Opts{Dir: specDir, Module: "TraceEncTamper", Config: "TraceEncTamper.cfg", Workers: 2, Timeout: 2 * time.Minute}, b)
 	got := map[int]bool{}
 	for _, r := range rej {
 		got[r.Trace] = true
 	}
-	ok := res.OK && !got[0] && got[1] && got[2] && !got[3] && got[4]
+	ok := res.OK && !got[0] && got[1] && got[2] && !got[3] && got[4] && !got[5] && got[6]
 	e.Set("binding_selftest", tv.M{"unmodified_trace_accepted": !got[0], "terminal_error_rewritten_to_eof_rejected": got[1], "prefix_flag_rewritten_rejected": got[2],
-		"source_failure_trace_accepted": !got[3], "source_failure_rewritten_to_eof_rejected": got[4]})
+		"source_failure_trace_accepted": !got[3], "source_failure_rewritten_to_eof_rejected": got[4],
+		"position_binding_trace_accepted": !got[5], "foreign_position_rewritten_to_accepted_rejected": got[6]})
 	if !ok {
 		e.Inconclusive(fmt.Sprintf("binding self-test failed: rejects=%v %s", rej, res.What))
 	}
